@@ -56,6 +56,14 @@ func run(r *mon.Run) {
 		gen.NewIdentity(g0, gen.Curves[1], "example.com", 2),
 		gen.NewIdentity(g0, gen.Curves[0], "example.com", 3),
 	}
+	// renewals: same key, new leaf certificate; a reused Signer sees its Certs change between uses
+	renewed := map[*gen.Identity]*gen.Identity{}
+	signerOf := map[*gen.Identity]*gen.Identity{} // which identity's shared Signer object to use
+	for k, id := range ids[:3] {
+		rn := id.Renewed(int64(7000 + k))
+		renewed[id] = rn
+		signerOf[id], signerOf[rn] = id, id
+	}
 	n := 1500
 	if r.Thorough {
 		n = 30000
@@ -69,6 +77,9 @@ func run(r *mon.Run) {
 		g := r.Rand("case", i)
 		ver := gen.SXGVersions[i%3]
 		id := ids[(i/3)%3]
+		if (i/9)%2 == 1 {
+			id = renewed[id]
+		}
 		urlLen := mon.Pick(g, lens)
 		vurlLen := mon.Pick(g, lens)
 		switch i % 53 {
@@ -148,10 +159,10 @@ func run(r *mon.Run) {
 		var err error
 		if i%2 == 1 {
 			// one Signer object per identity reused across exchanges (dates, URLs change between uses)
-			if sharedSigners[id] == nil {
-				sharedSigners[id] = &signedexchange.Signer{}
+			if sharedSigners[signerOf[id]] == nil {
+				sharedSigners[signerOf[id]] = &signedexchange.Signer{}
 			}
-			spec.Shared = sharedSigners[id]
+			spec.Shared = sharedSigners[signerOf[id]]
 		}
 		p, pv := r.Call(fmt.Sprintf("build/%d", i), nil, func() { e, signer, err = spec.Build() })
 		if p || err != nil {
